@@ -661,6 +661,7 @@ func (h *httpServerHandler) sendNotificationToGetSSE(sessionID string, notificat
 	if !ok {
 		return fmt.Errorf("%w: %s", ErrSessionNotFound, sessionID)
 	}
+	verifYieldKey("send:got-conn", sessionID)
 
 	conn.writeLock.Lock()
 	defer conn.writeLock.Unlock()
